@@ -17,6 +17,7 @@ import (
 	"testing"
 	"time"
 
+	cj "github.com/refraction-networking/conjure/pkg/station/lib"
 	"github.com/refraction-networking/conjure/pkg/transports/wrapping/obfs4"
 )
 
@@ -32,10 +33,12 @@ type c03Fl struct {
 	Transport string `json:"transport"`
 	PrefixID  int32  `json:"prefix_id"`
 	Flip      int    `json:"flip"`       // bit to flip (-1: none)
+	FlipEnd   int    `json:"flip_end"`   // > 0: flip the bit this many bits before the end of the flight
 	Trunc     int    `json:"trunc"`      // keep only this many bytes (0: all; negative: drop from the end)
 	AsPrefix  int32  `json:"as_prefix"`  // >= 0: replace the static bytes by those of this prefix id (tag stays genuine)
 	Valid     bool   `json:"valid"`      // is the client's registration valid (true) or only tracked
 	NoReg     bool   `json:"no_reg"`     // the client never registered on this phantom
+	TagOf     string `json:"tag_of"`     // "min": the flight is prefix_id's static bytes + the obfuscated identifier of a *min* registration
 }
 
 type c03Case struct {
@@ -71,6 +74,7 @@ type c03Res struct {
 	Reveals    []vfReveal   `json:"reveals"`
 	Marks      []vfMark     `json:"marks"`
 	Panic      string       `json:"panic"`
+	Status     int          `json:"status"` // used/unused state of the registration a transport returned (-1: none returned)
 }
 
 type c03Chunk struct {
@@ -243,12 +247,33 @@ func c03Resolve(s *vfStation, cs *c03Case, phantom net.IP, res *c03Res) ([]byte,
 			for _, w := range writes {
 				fl = append(fl, w...)
 			}
+			if f.TagOf == "min" {
+				// a holder of a min registration's secret wraps its identifier as a prefix flight
+				msec := make([]byte, 32)
+				rand.Read(msec)
+				mw, mparams, err := vfFlight(s, "min", 0, 0, false, msec)
+				if err != nil {
+					return nil, err
+				}
+				if _, err := s.newReg(vfTT("min"), mparams, msec, phantom, "127.0.0.1:9", true); err != nil {
+					return nil, err
+				}
+				tag, err := s.prefixT.TagObfuscator.Obfuscate(mw[0], s.pub[:])
+				if err != nil {
+					return nil, err
+				}
+				fl = append(append([]byte{}, static(int(f.PrefixID))...), tag...)
+			}
 			if f.AsPrefix >= 0 && f.Transport == "prefix" {
 				own := static(int(f.PrefixID))
 				fl = append(append([]byte{}, static(int(f.AsPrefix))...), fl[len(own):]...)
 			}
 			if f.Flip >= 0 && f.Flip/8 < len(fl) {
 				fl[f.Flip/8] ^= 1 << uint(f.Flip%8)
+			}
+			if f.FlipEnd > 0 && f.FlipEnd <= 8*len(fl) {
+				b := 8*len(fl) - f.FlipEnd
+				fl[b/8] ^= 1 << uint(b%8)
 			}
 			if f.Trunc > 0 && f.Trunc < len(fl) {
 				fl = fl[:f.Trunc]
@@ -313,7 +338,7 @@ func c03Run(s *vfStation, cs c03Case, wg *sync.WaitGroup, out *c03Res) {
 	out.Regs = s.regView(phantom)
 	out.Tracked = s.rm.CountRegistrations(phantom)
 	out.TS = s.wrappingNames()
-	out.Reveals = s.reveals(stream)
+	out.Reveals = s.reveals(stream, phantom)
 	out.Marks = s.marks(phantom, stream)
 	out.Returned = -1
 	conn.start = time.Now()
@@ -342,6 +367,20 @@ func c03Run(s *vfStation, cs c03Case, wg *sync.WaitGroup, out *c03Res) {
 		conn.mu.Lock()
 		out.Unread = len(conn.pending)
 		conn.mu.Unlock()
+	}
+	out.Status = -1
+	conn.mu.Lock()
+	calls := append([]vfCall{}, out.Calls...)
+	conn.mu.Unlock()
+	for _, cl := range calls {
+		if cl.Res == "found" && cl.RegID != "" {
+			id, _ := hex.DecodeString(cl.RegID)
+			if reg, ok := s.rm.GetRegistrations(phantom)[string(id)]; ok {
+				if d, ok := reg.(*cj.DecoyRegistration); ok {
+					out.Status = s.rm.VerifRegStatus(d)
+				}
+			}
+		}
 	}
 }
 
